@@ -21,6 +21,9 @@ pub struct SchedCfg {
     /// sync_channel capacity overrides (empty = keep the code's own bounds)
     pub caps: Vec<usize>,
     pub max_steps: usize,
+    /// lifecycle stage knob: regular refresh every n messages (0 = leave as set, the code's 100 000 by default)
+    #[serde(default)]
+    pub lc_refresh: u32,
 }
 
 impl SchedCfg {
@@ -31,6 +34,7 @@ impl SchedCfg {
             tick_ns: 1000,
             caps: vec![],
             max_steps: 2_000_000,
+            lc_refresh: 0,
         }
     }
     pub fn gen(rng: &mut Rng) -> SchedCfg {
@@ -56,6 +60,7 @@ impl SchedCfg {
             tick_ns: *rng.pick(&[1_000u64, 100_000, 1_000_000, 7_000_000, 20_000_000]),
             caps,
             max_steps: 3_000_000,
+            lc_refresh: *rng.pick(&[0u32, 0, 0, 1, 2, 5, 17, 100]),
         }
     }
 }
@@ -75,6 +80,10 @@ where
     config.silence_warnings = true;
     adlt_verif_seam::clock::reset(cfg.tick_ns);
     adlt_verif_seam::knobs::set_sync_channel_caps(cfg.caps.clone());
+    if cfg.lc_refresh != 0 {
+        adlt_verif_seam::knobs::set_lc_regular_refresh_interval(cfg.lc_refresh);
+        ctx.probe("lc_regular_refresh_interval_shortened");
+    }
     adlt_verif_seam::trace::reset();
     let t0 = adlt_verif_seam::clock::now_ns();
     let kind = cfg.kind.clone();
